@@ -32,6 +32,7 @@ class MThread:
         self.real = None
         self.priority = 0
         self.steps = 0
+        self.in_sched = False       # inside the scheduler's own code: yield points met there are not scheduling points
 
     def __repr__(self):
         return "<MThread %s>" % self.name
@@ -109,11 +110,14 @@ class Scheduler:
 
     # ---- thread management -------------------------------------------------------------------
     def spawn(self, name, target, real_thread=None):
+        caller = self.me()
+        if caller is not None and not caller.in_sched:
+            caller.in_sched = True
+            try:
+                return self.spawn(name, target, real_thread)
+            finally:
+                caller.in_sched = False
         t = MThread(self, name, target)
-        on_spawn = getattr(self.strategy, "on_spawn", None)
-        if on_spawn:
-            on_spawn(self, t)
-        self.threads.append(t)
 
         def runner():
             self.by_ident[threading.get_ident()] = t
@@ -136,7 +140,14 @@ class Scheduler:
             real_thread.run = runner
             real_thread.daemon = True
         t.real = real_thread
-        threading.Thread.start(real_thread)
+        # registered only when its real thread runs: creating and starting the Thread object runs arbitrary code (garbage collection may finalise a
+        # FileProxy of an earlier case, whose flush() passes yield points) - a thread that is on the list before its
+        # real thread exists could be handed the baton and never take it
+        threading.Thread.start(real_thread)      # (it waits for the baton in runner())
+        on_spawn = getattr(self.strategy, "on_spawn", None)
+        if on_spawn:
+            on_spawn(self, t)
+        self.threads.append(t)
         return t
 
     def me(self):
@@ -155,12 +166,22 @@ class Scheduler:
 
     def run(self, timeout=30.0):
         """Called by the (unmanaged) main thread: start the schedule and wait for it to finish."""
-        self.active = True
-        first = self._pick(None, "start")
-        if first is not None:
-            self._handover(None, first)
-        ok = self.done.wait(timeout)
-        self.active = False
+        import gc
+        # cyclic garbage of earlier cases (a FileProxy's finaliser calls its flush(), instrumented code) is collected
+        # now and not at a random point of this schedule: schedules stay reproducible from their seed
+        gc.collect()
+        gc_was = gc.isenabled()
+        gc.disable()
+        try:
+            self.active = True
+            first = self._pick(None, "start")
+            if first is not None:
+                self._handover(None, first)
+            ok = self.done.wait(timeout)
+            self.active = False
+        finally:
+            if gc_was:
+                gc.enable()
         if not ok:
             self.aborted = True
             return "watchdog"
@@ -200,36 +221,47 @@ class Scheduler:
                 raise SchedAbort()
             return
         me = self.me()
-        if me is None or me is not self.current:
+        if me is None or me is not self.current or me.in_sched:
+            # (in_sched: instrumented code reached from INSIDE the scheduler - a garbage collection that finalises a
+            # FileProxy of an earlier case runs its flush() wherever it happens to strike, e.g. in the middle of
+            # _pick; a nested hand-over there would leave the outer one with a stale choice)
             return
-        self.step += 1
-        me.steps += 1
-        self.yield_counts[kind] = self.yield_counts.get(kind, 0) + 1
-        if self.step > self.max_steps:
-            self._abort("step budget exhausted")
-            raise SchedAbort()
-        nxt = self._pick(me, kind)
-        if nxt is not None and nxt is not me:
-            self._handover(me, nxt)
+        me.in_sched = True
+        try:
+            self.step += 1
+            me.steps += 1
+            self.yield_counts[kind] = self.yield_counts.get(kind, 0) + 1
+            if self.step > self.max_steps:
+                self._abort("step budget exhausted")
+                raise SchedAbort()
+            nxt = self._pick(me, kind)
+            if nxt is not None and nxt is not me:
+                self._handover(me, nxt)
+        finally:
+            me.in_sched = False
 
     def block(self, me, on):
         """me cannot continue until `on` changes; schedule somebody else."""
         me.blocked_on = on
-        while me.blocked_on is not None:
-            if self.aborted:
-                raise SchedAbort()
-            self.step += 1
-            nxt = self._pick(me, "block")
-            if nxt is None:
-                self._deadlock()
-                raise SchedAbort()
-            if nxt is me:           # only possible through a firing timer
-                if me.timed_wait is not None:
-                    me.timed_wait.firings_left -= 1
-                    me.timer_fired = True
-                me.blocked_on = None
-                break
-            self._handover(me, nxt)
+        was, me.in_sched = me.in_sched, True
+        try:
+            while me.blocked_on is not None:
+                if self.aborted:
+                    raise SchedAbort()
+                self.step += 1
+                nxt = self._pick(me, "block")
+                if nxt is None:
+                    self._deadlock()
+                    raise SchedAbort()
+                if nxt is me:           # only possible through a firing timer
+                    if me.timed_wait is not None:
+                        me.timed_wait.firings_left -= 1
+                        me.timer_fired = True
+                    me.blocked_on = None
+                    break
+                self._handover(me, nxt)
+        finally:
+            me.in_sched = was
 
     def unblock(self, predicate):
         for t in self.threads:
@@ -238,6 +270,7 @@ class Scheduler:
                 t.timer_fired = False
 
     def _thread_exit(self, t):
+        t.in_sched = True
         self.unblock(lambda on: on[0] == "join" and on[1] is t)
         if self.aborted:
             self._wake_all()
